@@ -814,10 +814,8 @@ class ScipyOptimizeDriver(Driver):
             return grad[grad_idx, :]
 
         # Note, scipy defines constraints to be satisfied when positive,
-        # which is the opposite of OpenMDAO.
-        lower = meta['lower']
-        if isinstance(lower, np.ndarray):
-            lower = lower[idx]
+        # which is the opposite of OpenMDAO.  Same test as in _confunc (scaled bounds).
+        lower = self._autoscaler.get_bounds_scaling('constraint')[0][name][idx]
 
         if dbl or (lower <= -INF_BOUND):
             return -grad[grad_idx, :]
